@@ -119,6 +119,23 @@ def oracle(ctx, script, real):
                 reply = bytes(o[3:])
                 if not reply.startswith(b"RSP ") or not reply.endswith(b"\0"):
                     ctx.oracle_fail("malformed reply to a hostile control datagram", dict(op=SC.describe(op), reply=list(reply)), key="c14-py-reply-shape")
+                try:
+                    text.decode("utf-8")
+                    is_text = True
+                except UnicodeDecodeError:
+                    is_text = False
+                if not is_text:
+                    # "non-text control commands are answered with an error status or ignored": octets that are not text at all must
+                    # never be repaired into some other command that is then executed and answered as a success
+                    rt = reply.decode("latin-1").strip("\0").split(" ")
+                    try:
+                        status = int(rt[2]) if len(rt) > 2 else None
+                    except ValueError:
+                        status = None
+                    if status is None or status >= 0:
+                        ctx.oracle_fail("a control datagram that is not text (invalid UTF-8) was executed and answered as a success instead of being ignored / refused",
+                                        dict(datagram=list(text), reply=reply.decode("latin-1")), key="c14-py-non-text-executed")
+                        return
         elif op[0] == "data":
             ctx.nontrivial(("data", e["obs"][1], len(op[2]) < 6, (op[2][0] >> 4) if op[2] else -1))
 
